@@ -189,7 +189,7 @@ def class_to_syntax(obj, modname=None):
     is_seq = obj.isClockable()
     init = method_ast(obj, '__init__')
     port_by_wire_name = {}
-    ports, state, consts = [], [], []
+    ports, state, consts, inits = [], [], [], []
     in_names = {p.name: p for p in obj.inPorts}
     out_names = {p.name: p for p in obj.outPorts}
     argnames = [a.arg for a in init.args.args]
@@ -204,7 +204,13 @@ def class_to_syntax(obj, modname=None):
                 p = (in_names if v.func.attr == 'addIn' else out_names)[pname]
                 ports.append(dict(attr=attr, port=pname, width=p.wire.getWidth(), isOut=v.func.attr == 'addOut'))
             elif isinstance(v, ast.Constant) and isinstance(v.value, (int, bool)):
-                state.append((attr, int(v.value)))
+                # every constant assignment, in order (the emitted `initial` block repeats them all); `state` keeps one entry
+                # per attribute, first-assignment order, with the LAST assigned value = what the constructed object holds
+                inits.append((attr, int(v.value)))
+                if attr in [k for k, _ in state]:
+                    state = [(k, int(v.value)) if k == attr else (k, x) for k, x in state]
+                else:
+                    state.append((attr, int(v.value)))
             elif isinstance(v, ast.Name) and v.id in argnames:
                 val = getattr(obj, attr)
                 if not isinstance(val, int):
@@ -230,10 +236,11 @@ def class_to_syntax(obj, modname=None):
     sexp = sx('class', name,
               sx('ports', *[sx('port', p['attr'], p['port'], p['width'], int(p['isOut'])) for p in ports]),
               sx('state', *[sx('s', k, v) for k, v in state]),
+              sx('inits', *[sx('s', k, v) for k, v in inits]),
               sx('consts', *[sx('s', k, v) for k, v in consts]),
               sx('params', *[sx('s', k, v) for k, v in params]),
               int(is_seq), clk, body)
-    return dict(sexp=sexp, ports=ports, state=state, consts=consts, params=params, isSeq=is_seq, clk=clk,
+    return dict(sexp=sexp, ports=ports, state=state, inits=inits, consts=consts, params=params, isSeq=is_seq, clk=clk,
                 constructs=fr.constructs, name=name)
 
 
